@@ -293,14 +293,21 @@ def gen_cases(rng, n):
   for k in range(n):
     fan = rng.choice([3, 3, 4]) if k % 9 == 4 else 0
     alias = (k % 9 == 7)     # directed: one tensor under two graph outputs x static recipe
+    const_out = (k % 27 == 11)    # directed: the model also RETURNS one of its constants (F27)
     gg.DUP_PROB = 1.0 if alias else 0.06
+    gg.CONST_OUTPUT_PROB = 1.0 if const_out else 0.0
     try:
       mb, info = gg.gen_model(rng, max_ops=rng.choice([3, 5, 8, 10]), fanout=fan)
     finally:
       gg.DUP_PROB = 0.06
+      gg.CONST_OUTPUT_PROB = 0.0
     for trial in range(2):
       qt = quantizer.Quantizer(bytearray(mb))
-      if alias and trial == 0:
+      if const_out and trial == 0:
+        name = rng.choice(['default_a8w8_recipe', 'default_a16w8_recipe'])
+        qt.load_quantization_recipe(copy.deepcopy(ship[name]))
+        desc = name
+      elif alias and trial == 0:
         # static everywhere, graph outputs (and sometimes inputs) left float:
         # a DEQUANTIZE is inserted in front of every (aliased) graph output
         cn = rng.choice(['a8w8', 'a16w8', 'a8sw8'])
@@ -325,7 +332,7 @@ def gen_cases(rng, n):
           continue
       stats, real = None, True
       if qt.need_calibration:
-        if rng.random() < 0.75:
+        if const_out or rng.random() < 0.75:
           stats = gr.own_stats(mb, gg.random_inputs(mb, rng, rng.choice([1, 1, 2])))
         else:
           stats, real = gr.synthetic_stats(mb, rng), False
@@ -438,6 +445,10 @@ def main():
             bad.append(('C01:interp:int16-add-pot-scale', msg[:200]))
           elif 'sub.cc' in msg and 'input1_shift == 0' in msg:
             bad.append(('C01:interp:int16-sub-pot-scale', msg[:200]))
+          elif any(og.is_const(m_in, g.tensors[int(x)]) for g in m_in.subgraphs for x in g.outputs):
+            # F27: a constant that is also a graph output is quantized as an ACTIVATION
+            # for the OUTPUT rule although a kernel reads it as weight / bias
+            bad.append(('C01:interp:constant-graph-output', msg[:200]))
           else:
             bad.append(('C01:interp-' + r[0], msg[:200]))
       for key, msg in bad[:2]:
